@@ -10,6 +10,7 @@ with the specification's exact value.
 """
 import json
 import math
+import random
 
 from harness.core import R, close, pmap, MachineryError
 from harness.frame_common import METRICS, GLABEL, CLABEL, frame_cfg, metric_fns, order_for, concrete, lookup, isnan
@@ -104,6 +105,9 @@ def _frame(args):
         variants = {"weighted": build(d, d["w"]), "expanded_unit": build(de, [1] * len(erows)), "expanded_none": build(de, None)}
         s = SCALES[hash(json.dumps(rows)) % len(SCALES)]
         variants[f"scaled_{s:.3g}"] = build(d, [s * x for x in d["w"]])
+        import pandas as pd
+        lab = list(range(len(d["w"]))); random.Random(len(rows)).shuffle(lab)
+        variants["series_labelled"] = build(d, pd.Series(d["w"], index=lab))          # a weight vector is a weight vector whatever labels it carries
         if all(r[4] == 1 for r in rows):
             variants["omitted"] = build(d, None)
         nev += len(variants)
